@@ -164,7 +164,7 @@ func cmdCheck(args []string) int {
 		}
 		budget := 20 * time.Minute
 		if tier == 1 {
-			budget = 90 * time.Minute
+			budget = 40 * time.Minute
 		}
 		if b := os.Getenv("BKLSYM_BUDGET_MIN"); b != "" {
 			var n int
